@@ -54,6 +54,9 @@ def generate_output_configuration(commandLineArguments, oConfig):
         dOutputConfiguration["indent"] = configuration["indent"]
         dOutputConfiguration["pragma"] = {}
         dOutputConfiguration["pragma"]["patterns"] = configuration["pragma"]["patterns"]
+        if "severity" in configuration:
+            # user defined severities are referenced by name in the rule section
+            dOutputConfiguration["severity"] = configuration["severity"]
         with open(commandLineArguments.output_configuration, "w") as json_file:
             json.dump(dOutputConfiguration, json_file, sort_keys=True, indent=2)
         sys.exit(fExitStatus)
